@@ -301,8 +301,9 @@ void rconv(char const* desc)
                 using S = cnl::scaled_integer<cnl::rounding_integer<SR, Tag>, cnl::power<SE, Radix>>;
                 using D = cnl::scaled_integer<cnl::rounding_integer<DR, Tag>, cnl::power<DE, Radix>>;
                 S s = deep<S>(rs);
-                D d = static_cast<D>(s);
-                got = deepval(d);
+                // Route 1: static_cast between the wrapped types; Route 2: the convert<> entry point on the same wrapped types
+                if constexpr (Route == 2) { auto d = cnl::convert<Tag, D>{}(s); got = deepval(d); }
+                else { D d = static_cast<D>(s); got = deepval(d); }
             }
         });
         X q, r;
@@ -327,10 +328,10 @@ void rconv(char const* desc)
                 if (how) {
                     if (s > 0) {
                         X const unit = s < 100 ? shl(X::from_u(1), s) : xpow2(255);   // Radix^s in units of the source
-                        bool unit_unrep = Route == 0 ? unit > xmax<SR>() : unit > xmax<PS>();
+                        bool unit_unrep = Route != 1 ? unit > xmax<SR>() : unit > xmax<PS>();
                         X half = tdiv(unit, X::from_u(2));
                         X biased = M::id == 1 ? (rs.neg ? rs - half : rs + half) : M::id == 2 ? rs + half : rs;
-                        bool bias_over = Route == 0 && (M::id == 1 || M::id == 2) && !fits<PS>(biased);
+                        bool bias_over = Route != 1 && (M::id == 1 || M::id == 2) && !fits<PS>(biased);
                         // defect models: signed promoted rep => the overflow is UB (trap); unsigned => the biased sum wraps
                         auto wrapw = [](X v, int w, bool sg) {
                             X mod = xpow2((unsigned)w), r = trem(v, mod);
@@ -342,6 +343,10 @@ void rconv(char const* desc)
                                                         : (!is_sgn<PS> && got == wrapw(tdiv(wrapw(biased, width_of<PS>, false), unit), width_of<DR>, is_sgn<DR>));
                         if (unit_unrep) cls = std::string("dest_unit_not_representable_in_source_rep") + how;
                         else if (bias_over && model_ok) cls = std::string("rounding_bias_overflows_source_rep") + how;
+                        else if (Route == 2 && M::id == 1 && o.kind == VALUE && got == wrapw(round_q(biased, unit, 1), width_of<DR>, is_sgn<DR>))
+                            // defect model (KF-C09-09): convert<nearest> adds the bias and then converts with the representation's own (nearest)
+                            // rounding instead of truncating: the biased value is rounded a second time
+                            cls = "convert_entry_point_on_rounding_rep_rounds_the_biased_value_again";
                     } else if (s < 0 && s > -200) {
                         X inter = shl(rs, (unsigned)(-s));
                         auto wrapw = [](X v, int w, bool sg) {
